@@ -20,11 +20,26 @@ func (in *Interp) stdIntrinsic2(fn *ssa.Function, name string, args []Value) (Va
 	if v, ok := in.stringsIntrinsic(name, args); ok {
 		return v, true
 	}
+	if v, ok := in.timeIntrinsic(name, args); ok {
+		return v, true
+	}
 	switch name {
 	case "encoding/binary.Write":
 		return in.binaryWrite(args), true
 	case "encoding/binary.Read":
 		return in.binaryRead(args), true
+	case "math.Float32frombits", "math.Float64frombits", "math.Float32bits", "math.Float64bits":
+		return args[0], true // floats that are only moved around are their bit patterns
+	case "math.Round":
+		r := bitsToReal(args[0].(*Term))
+		if r == nil {
+			in.unsupported("math.Round of an opaque bit pattern")
+		}
+		// half away from zero
+		half := mk("/", SortReal, "", nil, RealC(1), RealC(2))
+		pos := realFloor(mk("+", SortReal, "", nil, r, half))
+		neg := realCeil(mk("-", SortReal, "", nil, r, half))
+		return ToReal(Ite(mk("<=", 0, "", nil, RealC(0), r), pos, neg)), true
 	case "math.Ceil", "math.Floor":
 		r := bitsToReal(args[0].(*Term))
 		if r == nil {
@@ -155,7 +170,7 @@ func (in *Interp) bufIntrinsic(name string, args []Value) (Value, bool) {
 }
 
 // int64Of converts an Int term to the 64-bit vector used for Go int64.
-func (in *Interp) int64Of(t *Term) *Term { return Int2BV(t, 64) }
+func (in *Interp) int64Of(t *Term) *Term { return t }
 
 // stdGlobal returns the cell of a standard-library package-level variable.
 func (in *Interp) stdGlobal(pkg, name string) *Cell {
@@ -401,7 +416,11 @@ func (in *Interp) binaryWrite(args []Value) Value {
 		t := v
 		switch {
 		case t.w == SortInt:
-			return errInvalid // int has no fixed size
+			if b, ok := data.typ.Underlying().(*types.Basic); ok && b.Kind() == types.Int64 {
+				t = Int2BV(t, 64)
+			} else {
+				return errInvalid // int has no fixed size
+			}
 		case t.w == 0:
 			t = Ite(t, BV(8, 1), BV(8, 0))
 		case t.w == SortReal:
@@ -440,10 +459,17 @@ func (in *Interp) binaryRead(args []Value) Value {
 	}
 	ptr, ok := data.val.(*PtrV)
 	pt, ok2 := data.typ.(*types.Pointer)
-	if !ok || !ok2 || !isScalar(pt.Elem()) || width(pt.Elem()) == SortInt {
+	isI64 := false
+	if b, okb := pt.Elem().Underlying().(*types.Basic); ok2 && okb && b.Kind() == types.Int64 {
+		isI64 = true
+	}
+	if !ok || !ok2 || !isScalar(pt.Elem()) || (width(pt.Elem()) == SortInt && !isI64) {
 		return in.errIface(&ErrObj{format: "binary.Read: invalid type"})
 	}
 	w := width(pt.Elem())
+	if isI64 {
+		w = 64
+	}
 	if w == 0 {
 		w = 8
 	}
@@ -485,9 +511,12 @@ func (in *Interp) binaryRead(args []Value) Value {
 			v = Bin("bvor", v, Bin("bvshl", ZExt(b, w), BV(w, int64(8*i))))
 		}
 	}
-	if width(pt.Elem()) == 0 {
+	switch {
+	case width(pt.Elem()) == 0:
 		in.store(ptr, Not(Eq(v, BV(8, 0))))
-	} else {
+	case isI64:
+		in.store(ptr, BV2Int(v, true))
+	default:
 		in.store(ptr, v)
 	}
 	return (*IfaceV)(nil)
